@@ -34,4 +34,49 @@ def forcedProj : Proj :=
           [] ]
     nbThreads := 2, forceDisabled := true, stopOnFailure := false }
 
+/-- suite `s` uses the SESSION-scoped per-thread generator fixture `ps` in its two tests; two workers -/
+def sessionProj : Proj :=
+  { fixtures := [{ name := "ps", func := "ps", scope := .session, perThread := true, params := [],
+                   gen := true, setup := [], teardown := [] }]
+    suites :=
+      [ .mk "s" 0 false none none none none []
+          [{ name := "a", rank := 1, disabled := false, disabledReason := false, deps := [], fixtures := ["ps"], script := [] },
+           { name := "b", rank := 2, disabled := false, disabledReason := false, deps := [], fixtures := ["ps"], script := [] }]
+          [] ]
+    nbThreads := 2, forceDisabled := false, stopOnFailure := false }
+
+/-- what a `pop_runnable_tasks` that only looks at the on-completion dependencies sees -/
+def onCompletionOnly (g : Graph TaskId) : Graph TaskId := { g with succDeps := fun _ => [] }
+
+/-- the scheduler with ONE change (kept for the refutation theorem): after a keyboard interrupt `skip_all_tasks`
+    releases a remaining task as soon as its ON-COMPLETION dependencies are completed ("nothing is going to be run
+    anymore, the outcome of the other dependencies does not matter") -/
+def stepReleaseOnCompletionOnly (g : Graph TaskId) (n : Nat) (s : State TaskId) : Label TaskId → Option (State TaskId)
+  | .receive t =>
+    if t ∈ g.tasks ∧ s.phase t = .done then
+      let s1 := { s with phase := fun x => if x = t then .completed else s.phase x, clock := s.clock + 1 }
+      some (if s.aborted then release (onCompletionOnly g) s1 else dispatch g s1 n)
+    else none
+  | .interrupt =>
+    if s.aborted = false then
+      some (release (onCompletionOnly g) { s with aborted := true, clock := s.clock + 1 })
+    else none
+  | l => step g n s l
+
+def runReleaseOnCompletionOnly (g : Graph TaskId) (n : Nat) : State TaskId → List (Label TaskId) → Option (State TaskId)
+  | s, [] => some s
+  | s, l :: ls => match stepReleaseOnCompletionOnly g n s l with
+    | none => none
+    | some s' => runReleaseOnCompletionOnly g n s' ls
+
+/-- Ctrl-C while the tests `a` and `b` are running on the two workers; `a` ends, its worker skips the suite ending
+    task, then the session teardown task — `b` is still running -/
+def interruptedSessionTrace : List (Label TaskId) :=
+  [.start ⟨.sessSetup, []⟩ false, .finish ⟨.sessSetup, []⟩ .success, .receive ⟨.sessSetup, []⟩,
+   .start ⟨.begin, ["s"]⟩ false, .finish ⟨.begin, ["s"]⟩ .success, .receive ⟨.begin, ["s"]⟩,
+   .start ⟨.test, ["s", "a"]⟩ false, .start ⟨.test, ["s", "b"]⟩ false, .interrupt,
+   .finish ⟨.test, ["s", "a"]⟩ .success,
+   .start ⟨.end_, ["s"]⟩ true, .finish ⟨.end_, ["s"]⟩ .skipped, .receive ⟨.end_, ["s"]⟩,
+   .start ⟨.sessTeardown, []⟩ true]
+
 end LccModel.C15Scope
